@@ -1272,3 +1272,91 @@ Section Threads.
       unfold msg_log. rewrite HL. exact Hty'.
   Qed.
 End Threads.
+
+(* ------------------------------------------------------------------------------------ *)
+(** * Decoder: the version does not flow into a value that carries its own *)
+
+Definition with_ext {A} (x : ext) (r : dr A) : dr A :=
+  match r with
+  | ROk a _ c => ROk a x c
+  | RErr => RErr
+  | RPanic => RPanic
+  | RBad => RBad
+  end.
+
+Lemma with_ext_map {A B} (g : A -> B) x (r : dr A) : with_ext x (dr_map g r) = dr_map g (with_ext x r).
+Proof. destruct r; reflexivity. Qed.
+
+(** [elem] neither reads nor changes the version. *)
+Definition passthrough {A} (elem : ext -> cursor -> dr A) : Prop :=
+  forall x c, elem x c = with_ext x (elem None c).
+
+Lemma passthrough_none {A} (elem : ext -> cursor -> dr A) : passthrough elem ->
+  forall c a x' c', elem None c = ROk a x' c' -> x' = None.
+Proof.
+  intros H c a x' c' He. pose proof (H None c) as Hn. rewrite He in Hn. cbn [with_ext] in Hn. congruence.
+Qed.
+
+Lemma dec_loop_passthrough : forall elem isptr tag,
+  passthrough elem -> forall n acc, passthrough (fun x c => dec_loop elem isptr tag n x c acc).
+Proof.
+  intros elem isptr tag He. induction n as [|n IH]; intros acc x c; cbn [dec_loop]; [reflexivity|].
+  destruct (c_tag c =? tag); [|reflexivity].
+  rewrite (He x c). destruct (elem None c) as [v x' c'| | |] eqn:Hn; cbn [with_ext]; try reflexivity.
+  apply (passthrough_none elem He) in Hn. subst x'. apply IH.
+Qed.
+
+Lemma dec_fields_passthrough : forall (g : dfield -> ext -> cursor -> dr value) fs,
+  Forall (fun fd => passthrough (g fd)) fs -> passthrough (dec_fields g fs).
+Proof.
+  intros g fs H. induction H as [|fd fs Hfd _ IH]; intros x c; cbn [dec_fields]; [reflexivity|].
+  rewrite (Hfd x c). destruct (g fd None c) as [v x' c'| | |] eqn:Hn; cbn [with_ext]; try reflexivity.
+  apply (passthrough_none (g fd) Hfd) in Hn. subst x'.
+  rewrite (IH x c'). rewrite <- with_ext_map. reflexivity.
+Qed.
+
+Lemma no_query_passthrough : forall f p tag, no_query p = true -> passthrough (dec f p tag).
+Proof.
+  induction f as [|f IH]; intros p tag Hq x c; cbn [dec]; [reflexivity|].
+  destruct p as [k|q|isptr q|fs|]; cbn [no_query] in Hq.
+  - destruct c as [|[t l|t ch] rest]; try reflexivity.
+    destruct ((t =? tag) && leaf_matches k l); reflexivity.
+  - destruct (c_tag c =? tag); [|reflexivity].
+    rewrite (IH q tag Hq x c). rewrite with_ext_map. reflexivity.
+  - apply (dec_loop_passthrough (dec f q tag) isptr tag (IH q tag Hq) (S (length c)) [] x c).
+  - destruct c as [|[t l|t ch] rest]; try reflexivity.
+    destruct (t =? tag); [|reflexivity].
+    assert (Hp : passthrough (dec_fields (dec_field (dec f)) fs)).
+    { apply dec_fields_passthrough. rewrite forallb_forall in Hq. apply Forall_forall.
+      intros [o q] Hin. specialize (Hq _ Hin). cbn beta iota in Hq.
+      apply andb_prop in Hq. destruct Hq as [Hq Hnq]. apply andb_prop in Hq. destruct Hq as [Hsv Hr].
+      apply negb_true_iff in Hsv. intros x0 c0. unfold dec_field, after_setver, field_absent.
+      rewrite Hsv. destruct (f_range o); [discriminate|]. cbn [orb].
+      destruct (f_omit o && negb (c_tag c0 =? f_tag o)); [reflexivity|].
+      apply (IH q (f_tag o) Hnq). }
+    rewrite (Hp x ch). destruct (dec_fields (dec_field (dec f)) fs None ch); reflexivity.
+  - reflexivity.
+Qed.
+
+(** A value that carries its own version first is decoded identically whatever version an
+    earlier value left in the Decoder. *)
+Theorem dsets_first_ext_irrelevant : forall f p tag c x1 x2,
+  dsets_first p = true -> dec f p tag x1 c = dec f p tag x2 c.
+Proof.
+  induction f as [|f IH]; intros p tag c x1 x2 H; cbn [dec]; [reflexivity|].
+  destruct p as [k|q|isptr q|fs|]; cbn [dsets_first] in H; try discriminate.
+  destruct fs as [|[o q] fs]; [discriminate|].
+  destruct c as [|[t l|t ch] rest]; try reflexivity.
+  destruct (t =? tag); [|reflexivity].
+  cbn [dec_fields]. destruct (f_range o) eqn:Hr; [discriminate|].
+  assert (Hfirst : dec_field (dec f) (DField o q) x1 ch = dec_field (dec f) (DField o q) x2 ch).
+  { unfold dec_field, field_absent. rewrite Hr. cbn [orb].
+    destruct (f_setver o) eqn:Hsv.
+    - unfold after_setver. rewrite Hsv.
+      destruct (f_omit o && negb (c_tag ch =? f_tag o)); [reflexivity|].
+      rewrite (no_query_passthrough f q (f_tag o) H x1 ch), (no_query_passthrough f q (f_tag o) H x2 ch).
+      destruct (dec f q (f_tag o) None ch); reflexivity.
+    - apply andb_prop in H. destruct H as [Ho Hq]. apply negb_true_iff in Ho. rewrite Ho. cbn [andb].
+      unfold after_setver. rewrite Hsv. apply IH. exact Hq. }
+  rewrite Hfirst. reflexivity.
+Qed.
